@@ -233,6 +233,56 @@ def r18_6(ctx, fx):
                detail="comparisons input == re-encoding of the parsed key: %d (the AlgorithmIdentifier and the unused-bits octet are otherwise free)" % len(same))
 
 
+def r18_7(ctx, fx):
+    """"converting any accepted peer id to its serialized form and back yields the same peer id", and the form is the reference's:
+    writer and reader use the same serde data-model types on each side of `is_human_readable()` - a string (`serialize_str` of the
+    base58 text / `deserialize_str`) and a *byte string* (`serialize_bytes` of `to_bytes()` / `deserialize_bytes`).  A
+    `Vec<u8>::serialize` on the binary side writes a sequence of integers, which the byte-string visitor of the reader (and of every
+    other libp2p implementation) rejects in self-describing formats (CBOR, MessagePack)."""
+    ser = ctx.fn(fx, "<peer_id::PeerId as serde::Serialize>::serialize", "R18.7")
+    de = ctx.fn(fx, "<peer_id::PeerId as serde::Deserialize<'de>>::deserialize", "R18.7")
+    if ser is None or de is None:
+        return
+    def sides(fn, rx):
+        """{True: methods called on the human-readable edge, False: on the other}"""
+        out = {True: set(), False: set()}
+        hr = fn.calls(r"(Serializer|Deserializer)(<.*>)?>?::is_human_readable$")
+        calls = [c for c in fn.calls(rx) if not c.from_macro]
+        for h in hr:
+            for sw, t, f in fn.bool_tests(h.dest[0]):
+                rt = fn.reach([n for n, l in fn.succs(sw) if l == t])
+                rf = fn.reach([n for n, l in fn.succs(sw) if l == f])
+                for c in calls:
+                    m = c.name.rsplit("::", 1)[-1]
+                    if c.node in rt and c.node not in rf:
+                        out[True].add(m)
+                    elif c.node in rf and c.node not in rt:
+                        out[False].add(m)
+                    else:
+                        out[True].add(m + "?")
+                        out[False].add(m + "?")
+        return out, bool(hr)
+    w, okw = sides(ser, r"Serializer(<.*>)?>?::serialize_\w+$|Serialize(<.*>)?>?::serialize$")
+    r, okr = sides(de, r"Deserializer(<.*>)?>?::deserialize_\w+$")
+    ctx.anchor("R18.7", "is_human_readable tests in Serialize / Deserialize", int(okw) + int(okr), 2, cfg=fx.cfg)
+    ctx.ob("R18.7", "serialize/text-side-is-serialize_str,binary-side-is-serialize_bytes", w[True] == {"serialize_str"} and w[False] == {"serialize_bytes"}, site=ser.site(ser.entry), cfg=fx.cfg,
+           detail="writer: human readable %s, binary %s" % (sorted(w[True]), sorted(w[False])))
+    ctx.ob("R18.7", "deserialize/reader-asks-for-the-types-the-writer-emits", r[True] == {"deserialize_str"} and r[False] == {"deserialize_bytes"}, site=de.site(de.entry), cfg=fx.cfg,
+           detail="reader: human readable %s, binary %s" % (sorted(r[True]), sorted(r[False])))
+    # what is written: the base58 text and the multihash bytes
+    for c in ser.calls(r"Serializer(<.*>)?>?::serialize_(str|bytes)$"):
+        rs = guards.rootstrs(ser, c.args[1]) if len(c.args) > 1 else set()
+        want = "to_base58" if c.name.endswith("_str") else "to_bytes"
+        ctx.ob("R18.7", "serialize/%s-writes-%s()" % (c.name.rsplit("::", 1)[-1], want), any(x.endswith("PeerId::" + want) for x in rs), site=ser.site(c.node), cfg=fx.cfg, detail=str(sorted(rs))[:200])
+    # agreement with the reference source
+    rsrc, ver = refsrc.source("libp2p-identity", "src/peer_id.rs")
+    m = re.search(r"impl Serialize for PeerId.*?\n}\n", rsrc or "", re.S)
+    ref = sorted(set(re.findall(r"serializer\.(serialize_\w+)\(", m.group(0)))) if m else []
+    mine = sorted(x for x in (w[True] | w[False]))
+    ctx.ob("R18.7", "serialize/same-data-model-calls-as-the-reference", bool(ref) and mine == ref, site=ser.site(ser.entry), cfg=fx.cfg,
+           detail="litep2p %s, libp2p-identity %s %s" % (mine, ver, ref))
+
+
 def r18_4(ctx, fx):
     """sibling agreement with the reference on the byte parser: from_bytes decodes with the parser that must consume the whole
     input (Multihash::from_bytes), exactly like libp2p-identity, and hands that multihash to from_multihash"""
@@ -316,6 +366,7 @@ def run(ctx):
     r18_3(ctx, fx)
     r18_4(ctx, fx)
     r18_5(ctx, fx)
+    r18_7(ctx, fx)
     if ctx.tier == "thorough":
         r18_5(ctx, ctx.facts("all"))   # the TLS / QUIC path exists only with the quic feature
         r18_6(ctx, ctx.facts("all"))   # RSA identities exist only with the rsa feature
